@@ -193,6 +193,22 @@ def check(ctx):
                 ctx.violation('C20.R1', F, call, Model.qual(f), "time kind '%s' emits raw data between quotes" % kind, stmt='raw time data')
     if n1 < 10:
         raise AnalysisError('C20.R1 saw only %d quoted string emissions' % n1)
+    # ... and that formatter output determines the instant: numeric date fields are zero-filled to their width
+    from .. import siblings
+    used = set()
+    for kind in TIME_KINDS:
+        cell = tab.cells.get(kind)
+        for f_ in ([cell.cls.find_method('encode')[1]] if cell is not None and cell.cls is not None else []):
+            for c_ in walk_no_nested(f_):
+                if isinstance(c_, ast.Call) and isinstance(c_.func, ast.Name) and c_.func.id.endswith('_from_datetime'):
+                    used.add(c_.func.id)
+    for fdef, nfmt, bad in siblings.unpadded_date_fields(model, lambda name: name in used):
+        ctx.instance('C20.R1', '%s: numeric date fields zero-filled (%d formatted outside strftime)' % (Model.qual(fdef), nfmt), 'ok' if not bad else 'VIOLATION', nontrivial=nfmt > 0,
+                     node=fdef, file='asn1tools/codecs/__init__.py')
+        for n, attr, spec, width in bad:
+            ctx.violation('C20.R1', 'asn1tools/codecs/__init__.py', n, Model.qual(fdef),
+                          'the %s field is formatted without zero fill to %d digits: the text of a GSER time value no longer determines the instant (.05 s and .5 s both give ".5")' % (attr, width),
+                          stmt='unpadded %s' % attr)
 
     # ---- R2 across the codecs (encode paths)
     cg = CallGraph(model)
